@@ -95,7 +95,7 @@ pub struct RunInfo { pub drops_mid_frame: usize, pub pendings: usize, pub errors
 fn run_schedule(vals: &[Val], stream: &Rc<Vec<u8>>, complete: usize, on_boundary: bool, ch: Shared, b: Bounds) -> Result<RunInfo, Fail> {
     let st = Rc::new(RefCell::new(SrcState::default()));
     let src = ScriptSrc { data: stream.clone(), st: st.clone(), ch: ch.clone(), b };
-    let mut r = AsyncReader::new(src);
+    let mut r = match crate::sched::take_prebuf() { Some(b) => AsyncReader::with_buffer(src, b), None => AsyncReader::new(src) };
     let mut drops_left = b.drops;
     let mut drops_mid = 0;
     let mut surfaced_errors = 0;
@@ -184,18 +184,22 @@ fn exhaustive_thorough(i: u64, st: &mut Stats) -> CaseResult { exhaustive(i, st,
 
 fn random_walk(g: &mut Gen, st: &mut Stats) -> CaseResult {
     st.eval();
-    let n = 1 + g.below(3);
-    let vals: Vec<Val> = (0 .. n).map(|_| if g.chance(40) { Val::any(g) } else { Val::small(g) }).collect();
+    // mostly 1-3 frames; now and then a longer run on the same reader (state carried from frame to frame)
+    let n = match g.below(50) { 0 => 40, 1 ..= 5 => 4 + g.below(9), _ => 1 + g.below(3) };
+    let vals: Vec<Val> = (0 .. n).map(|_| if g.chance(40) && n <= 12 { Val::any(g) } else { Val::small(g) }).collect();
     let full = stream_of(&vals);
     let cut = if g.chance(80) { g.below(full.len() + 1) } else { full.len() };
     let (stream, complete, on_boundary) = prep(&vals, cut);
     let b = Bounds { pending_run: 1 + g.below(4), pending_total: usize::MAX, errors: g.below(4), drops: g.below(12), small: false };
     let ch: Shared = Rc::new(RefCell::new(TapeChooser::draw(g, 400)));
+    let ctor = crate::sched::draw_prebuf(g);
     let info = run_schedule(&vals, &stream, complete, on_boundary, ch, b)?;
+    st.class(&format!("walk/AsyncReader::{}", ctor));
     if info.drops_mid_frame > 0 { st.nontrivial(hash_of(&(&stream[.. stream.len().min(48)], stream.len(), info.polls, info.pendings, info.drops_mid_frame))) }
     st.class(if info.drops_mid_frame > 0 { "walk/drop-mid-frame" } else if info.pendings > 0 { "walk/pendings-only" } else { "walk/straight" });
     if info.errors > 0 { st.class("walk/with-transient-error") }
     if !on_boundary { st.class("walk/stream-ends-inside-frame") }
+    if n > 3 { st.class("walk/4-40 frames on one reader") }
     Ok(())
 }
 
@@ -206,7 +210,7 @@ pub fn subs() -> Vec<Sub> {
               kind: SubKind::Enumerate { quick: n, thorough: n, f: exhaustive_quick, complete_quick: true, complete_thorough: false } },
         Sub { prop: "C15", name: "exhaustive-deeper", rule: "the same streams with <= 4 Pendings in total, every delivery size spread, capped at 5*10^7 schedules per subtree (thorough)",
               kind: SubKind::Enumerate { quick: 0, thorough: n, f: exhaustive_thorough, complete_quick: false, complete_thorough: true } },
-        Sub { prop: "C15", name: "random-walks", rule: "1-3 generated frames (payloads up to 70 KB), stream possibly cut anywhere, schedule drawn from the tape with up to 4 consecutive Pendings, 3 transient errors and 11 drops; distinct by (stream, poll/pending/drop counts)",
+        Sub { prop: "C15", name: "random-walks", rule: "1-3 generated frames, in 12 % of the walks 4-40 (payloads up to 70 KB), stream possibly cut anywhere, schedule drawn from the tape with up to 4 consecutive Pendings, 3 transient errors and 11 drops; distinct by (stream, poll/pending/drop counts)",
               kind: SubKind::Random { quick: 300_000, thorough: 3_000_000, tape: 2048, f: random_walk } },
     ]
 }
